@@ -254,6 +254,8 @@ def make_sets(scn):
             p[:, 3] = scn['const_word']      # a constant metadata byte (padding): undefined statistics (NaN) for that word in CPA/DPA
         if j == 0 and not (scn.get('const_word') is not None and scn.get('classes') is not None):
             p[0, :] = 255        # first batch decisive for automatic class sets (HW max) - DESIGN 4.3
+        if j >= 1 and scn.get('reuse') == 'same_container':
+            s, p = out[0][0].copy(), out[0][1].copy()      # the same Container object is run again: the same traces once more
         out.append((s, p))
     return out
 
@@ -433,6 +435,10 @@ def generate(prop, seed, tier):
         scn['model'] = ['monobit', 0] if scn['kind'] == 'dpa' else 'hw'
         scn.pop('const_word', None)
         scn.pop('wide', None)
+    ru = rng.stream(seed, 'reuse')
+    u_ru = ru.random()
+    if prop in ('C02', 'C08') and u_ru < 0.12:
+        scn['reuse'] = 'same_container' if (u_ru < 0.07 and len(scn['sets']) > 1) else 'shared'
     bi = rng.stream(seed, 'bigint')
     u_bi = bi.random()
     if scn['kind'] != 'mia' and not scn.get('step') and u_bi < 0.05:
@@ -660,6 +666,20 @@ def _execute(scn, scared):
                 container = scared.Container(ths, frame=np_frame(scn['frame'])) if scn['frame'] is not None else scared.Container(ths)
             else:
                 container = scared.Container(ths, frame=np_frame(scn['frame']), preprocesses=(pps[0] if (len(pps) == 1 and scn['seed'] % 3 == 0) else list(pps)))
+            if scn.get('reuse') == 'same_container' and not fault:
+                if j == 0:
+                    first_container = container
+                else:
+                    container = first_container         # a Container is a description of a trace set, not a one-shot iterator
+                    probe('container_run_again')
+            if scn.get('reuse') == 'shared' and not fault and j == 0:
+                # another analysis object goes over the same Container object first: nothing it does may reach this one
+                other = K(**analysis_kwargs(scn, sf, None))
+                try:
+                    other.run(container)
+                    probe('container_shared_with_another_analysis')
+                except Exception:
+                    pass
             E = expected_matrix(scn, samples)
             D = expected_data(scn, model, pt)
             Hook.sf_calls = 0
